@@ -76,6 +76,8 @@ struct FaultFmt {
     ends: usize,
     /// bytes in the buffer when message_start was (last) called
     len_at_start: usize,
+    /// a long-lived transmit buffer: message_start discards what is left of the previous response
+    clear_on_start: bool,
     err: Error,
 }
 
@@ -97,6 +99,9 @@ impl scpi::parser::response::Formatter for FaultFmt {
     }
     fn message_start(&mut self) -> scpi::error::Result<()> {
         self.starts += 1;
+        if self.clear_on_start {
+            self.inner.clear();
+        }
         self.len_at_start = self.inner.len();
         if self.fail_start {
             return Err(self.err);
@@ -135,11 +140,24 @@ fn run_fault_fmt_counts(bytes: &[u8], plans: &[UnitPlan], mut fmt: FaultFmt) -> 
 /// Run a message with a transparent foreign formatter that counts the control calls:
 /// (result, buffer, message_start calls, response_unit calls, message_end calls, buffer length at the last message_start).
 pub fn control_call_counts(bytes: &[u8], plans: &[UnitPlan]) -> (Result<(), Error>, Vec<u8>, usize, usize, usize, usize) {
-    let mut fmt = FaultFmt { inner: Vec::new(), fail_start: false, fail_end: false, fail_unit: None, units: 0, starts: 0, ends: 0, len_at_start: 0, err: Error::new(scpi::error::ErrorCode::OutOfMemory) };
+    let mut fmt = FaultFmt { inner: Vec::new(), fail_start: false, fail_end: false, fail_unit: None, units: 0, starts: 0, ends: 0, len_at_start: 0, clear_on_start: false, err: Error::new(scpi::error::ErrorCode::OutOfMemory) };
     let mut dev = LogDev::with_plan(plans.to_vec());
     let mut ctx = Context::default();
     let result = FIXTREE.run(bytes, &mut dev, &mut ctx, &mut fmt);
     (result, fmt.inner, fmt.starts, fmt.units, fmt.ends, fmt.len_at_start)
+}
+
+/// Two messages in a row through ONE wrapping formatter whose message_start discards the previous
+/// response (a long-lived transmit buffer): the buffer after each of the two runs.
+pub fn two_messages_clearing_formatter(first: &[u8], first_plans: &[UnitPlan], second: &[u8], second_plans: &[UnitPlan]) -> (Result<(), Error>, Vec<u8>, Result<(), Error>, Vec<u8>) {
+    let mut fmt = FaultFmt { inner: Vec::new(), fail_start: false, fail_end: false, fail_unit: None, units: 0, starts: 0, ends: 0, len_at_start: 0, clear_on_start: true, err: Error::new(scpi::error::ErrorCode::OutOfMemory) };
+    let mut dev = LogDev::with_plan(first_plans.to_vec());
+    let mut ctx = Context::default();
+    let a = FIXTREE.run(first, &mut dev, &mut ctx, &mut fmt);
+    let buf_a = fmt.inner.clone();
+    let mut dev = LogDev::with_plan(second_plans.to_vec());
+    let b = FIXTREE.run(second, &mut dev, &mut ctx, &mut fmt);
+    (a, buf_a, b, fmt.inner)
 }
 
 fn expect_calls(case: &Case, upto: usize) -> Vec<(usize, bool)> {
@@ -322,7 +340,7 @@ pub fn check(case: &Case, obs: &Obs) -> CheckResult {
     // 9. a foreign formatter refusing message_start / the j-th response_unit / message_end
     {
         let err = case.inject.build();
-        let mk = || FaultFmt { inner: Vec::new(), fail_start: false, fail_end: false, fail_unit: None, units: 0, starts: 0, ends: 0, len_at_start: 0, err };
+        let mk = || FaultFmt { inner: Vec::new(), fail_start: false, fail_end: false, fail_unit: None, units: 0, starts: 0, ends: 0, len_at_start: 0, clear_on_start: false, err };
         let o = run_fault_fmt(&r.bytes, &case.plans, FaultFmt { fail_start: true, ..mk() });
         runs += 1;
         obs.label("fault: formatter refuses message_start");
